@@ -20,8 +20,18 @@ def main():
     mods = ["checks.selftest_contracts"]
     load_registry(mods)
     from checks import selftest_contracts as SC
-    results, dt = verify(mods, sorted(SC.EXPECT))
+    import time
+    from concurrent.futures import ProcessPoolExecutor
+    from pyvc.run import _work
+    t0 = time.time()
+    with ProcessPoolExecutor(max_workers=14) as ex:       # many tiny functions: one worker each
+        results = list(ex.map(_work, [(mods, q, 2) for q in sorted(SC.EXPECT)]))
+    dt = time.time() - t0
     unsound, incomplete, n = [], [], 0
+    if os.environ.get("V"):
+        for r in sorted(results, key=lambda r: -sum(o["time"] for o in r["obligations"]))[:8]:
+            print("time %6.1fs %s  %s" % (sum(o["time"] for o in r["obligations"]), r["qualname"],
+                                          [(o["id"].split("/")[-1], o["time"], o["backend"][:25]) for o in r["obligations"] if o["time"] > 5]))
     for r in results:
         exp = SC.EXPECT[r["qualname"]]
         if r["status"] != "ok":
